@@ -1,4 +1,4 @@
-import SgModel.Lemmas.CyW
+import SgModel.Lemmas.CyWParam
 /-!
 # C05 — a write statement that fails changes nothing
 
@@ -72,56 +72,6 @@ theorem C05_partial_single_row {α : Type} (act : G → α → R G) (g g' : G) (
     cases hr : act g r with
     | ok g1 => rw [hr] at h; simp [streamRows] at h
     | error e' => rw [hr] at h; cases h; rfl
-
-theorem streamRows_infallible {α : Type} (act : G → α → R G)
-    (hi : ∀ g r, ∃ g', act g r = .ok g') (rows : List α) (g : G) :
-    (streamRows act g rows).2 = none := by
-  induction rows generalizing g with
-  | nil => rfl
-  | cons r rs ih =>
-    obtain ⟨g1, h1⟩ := hi g r
-    simp only [streamRows, h1]
-    exact ih g1
-
-theorem evalProps_lit (g : G) (ps : Props) (row : Row) (l : List (Nat × E)) (h : litProps l = true) :
-    ∃ vs, evalProps g ps row l = .ok vs := by
-  induction l with
-  | nil => exact ⟨[], rfl⟩
-  | cons ke l ih =>
-    obtain ⟨k, e⟩ := ke
-    simp only [litProps, List.all_cons, Bool.and_eq_true] at h
-    obtain ⟨vs, hvs⟩ := ih h.2
-    cases e with
-    | lit v => exact ⟨(k, v) :: vs, by simp [evalProps, eval, hvs, bind, Except.bind, pure, Except.pure]⟩
-    | _ => simp at h
-
-/-- the syntactic predicate is sound: such a CREATE succeeds on every graph and row -/
-theorem litCreate_infallible (del : G → Bool → Nat → R G) (ps : Props) (c : Clause)
-    (hc : litCreate c = true) (g : G) (row : Row) : ∃ out, applyWrite del ps c g row = .ok out := by
-  cases c with
-  | create paths =>
-    simp only [applyWrite]
-    simp only [litCreate, List.all_eq_true, Bool.and_eq_true] at hc
-    have key : ∀ (pl : List CPath), (∀ p ∈ pl, p.a.var.isNone = true ∧ litProps p.a.props = true ∧ p.seg.isNone = true) →
-        ∀ acc : G × Row, ∃ out, foldR (createPath g ps row) acc pl = .ok out := by
-      intro pl
-      induction pl with
-      | nil => intro _ acc; exact ⟨acc, rfl⟩
-      | cons p pl ih =>
-        intro hp acc
-        obtain ⟨hv, hl, hs⟩ := hp p (List.mem_cons_self ..)
-        obtain ⟨vs, hvs⟩ := evalProps_lit acc.1 ps acc.2 p.a.props hl
-        have hvar : p.a.var = none := by simpa using hv
-        have hseg : p.seg = none := by simpa using hs
-        have h1 : createPath g ps row acc p
-            = .ok ((acc.1.addNode (linsertAll [] p.a.labels) (psetAll [] vs)).1, acc.2) := by
-          simp [createPath, createNode, hvar, hseg, hvs, bind, Except.bind, pure, Except.pure]
-        simp only [foldR, h1, bind, Except.bind]
-        exact ih (fun p' hp' => hp p' (List.mem_cons_of_mem _ hp')) _
-    exact key paths (fun p hp => by
-      have := hc p hp
-      exact ⟨this.1.1, this.1.2, this.2⟩) (g, row)
-  | _ => simp [litCreate] at hc
 
 /-- partial: when the only fallible evaluation precedes the first write — the reading
 clauses may fail, the write clause (syntactically: CREATE of new nodes with literal
